@@ -204,7 +204,7 @@ fn check(l: &mut Local<'_>, src: &Beatmap, target: u8, m: &ModSpec, dsets: &[Dif
 
 fn main() {
     let ctx = Ctx::from_env("C07");
-    ctx.rule("case = (native mode, grammar map); per case: every target mode x mods menu (key mods 1K-9K, 10K, Random seeds, HoldOff, Invert, HR, ...) x 3 Difficulty settings; oracle = the three conversion entry points agree (maps or errors), failing convert_mut leaves the map untouched, same-mode = identity, only un-converted osu! converts, result marked; calculate_for_mode / strains_for_mode / GradualDifficulty::new_with_mode / GradualPerformance::new_with_mode / Performance::try_mode / mode_or_ignore on the source equal the call on the explicitly converted map; five builder configurations (priority, accuracy, misses, combo, counts, passed_objects) applied before try_mode / mode_or_ignore must give what they give on the converted map; already-converted maps as inputs too; non-trivial = stars > 0");
+    ctx.rule("case = (native mode, grammar map); per case: every target mode x mods menu (key mods 1K-9K, 10K, Random seeds, HoldOff, Invert, HR, ...) x 5 Difficulty settings (two with passed_objects); oracle = the three conversion entry points agree (maps or errors), failing convert_mut leaves the map untouched, same-mode = identity, only un-converted osu! converts, result marked; calculate_for_mode / strains_for_mode / GradualDifficulty::new_with_mode / GradualPerformance::new_with_mode / Performance::try_mode / mode_or_ignore on the source equal the call on the explicitly converted map; five builder configurations (priority, accuracy, misses, combo, counts, passed_objects) applied before try_mode / mode_or_ignore must give what they give on the converted map; already-converted maps as inputs too; non-trivial = stars > 0");
 
     // thorough keeps N <= 3 but uses the wide alphabet and the rich mods menu (N <= 4 does not finish inside the cap)
     let n_max = 3;
@@ -216,12 +216,13 @@ fn main() {
         opts.gaps = vec![0, 150];
         opts.mania_cols = vec![0];
     }
-    let dsets = [Difficulty::new(), Difficulty::new().clock_rate(1.3).od(8.3, false), Difficulty::new().lazer(false).ar(9.7, true)];
+    // (the last two: a prefix — what counts as "the first n objects" must not depend on where the conversion happens)
+    let dsets = [Difficulty::new(), Difficulty::new().clock_rate(1.3).od(8.3, false), Difficulty::new().lazer(false).ar(9.7, true), Difficulty::new().passed_objects(2), Difficulty::new().passed_objects(1).clock_rate(0.8)];
     let menu = mods_menu(!ctx.quick());
     for u in opts.build() {
         ctx.universe(&u.name, u.total, |idx, l| {
             let (spec, map) = u.decode(idx);
-            u.sample(l, idx, &spec, "4 target modes x mods menu x 3 Difficulty settings");
+            u.sample(l, idx, &spec, "4 target modes x mods menu x 5 Difficulty settings");
             let desc = || format!("spec={}\n--- .osu ---\n{}", spec.describe(), spec.text());
             for target in 0..4u8 {
                 for m in &menu {
